@@ -61,7 +61,7 @@ Definition controlled_by (g : gate) (qs : list nat) : option gate :=
     if existsb (fun q => existsb (Nat.eqb q) (g_targ g)) qs then None else
     match g_cls g, qs, g_targ g with
     | cX, [q], [t] => Some (two_qubit cCNOT q t g)
-    | cX, [q0; q1], [t] => Some (mkGate cOther [q0; q1; t] [q0; q1] [t] None None false)   (* TOFFOLI *)
+    | cX, [q0; q1], [t] => Some (mkGate cOther [] [q0; q1] [t] None None false)   (* TOFFOLI; init_args of classes outside the library are not recorded *)
     | cY, [q], [t] => Some (two_qubit cCY q t g)
     | cZ, [q], [t] => Some (two_qubit cCZ q t g)
     | cRX, [q], [t] => Some (two_qubit cCRX q t g)
